@@ -1,7 +1,7 @@
 // Command c11 executes sticky-session scenarios against the real roundrobin / stickycookie packages,
 // through net/http (http.SetCookie on the way out, Request.Cookie on the way in).
 //
-//	cfg lb=rr|rb codec=<spec> [name=<esc>] [via=rec|srv] [opts=0|1] [verbose=0|1]
+//	cfg lb=rr|rb codec=<spec> [name=<esc>] [via=rec|srv] [opts=0|1] [verbose=0|1] [director=0|1]
 //	upsert <esc-url> [w]        -> ok <esc-url>,<weight now>,<key> | err badurl | err <msg>
 //	remove <esc-url>            -> ok <key> | err notfound | err badurl      (<key> = <esc scheme>|<esc host>|<esc path>)
 //	upsert-inner / remove-inner -> as upsert / remove, but on the RoundRobin wrapped by the Rebalancer (lb=rb) directly
@@ -689,8 +689,16 @@ func main() {
 			ss = roundrobin.NewStickySession(name)
 		}
 		ss.SetCookieValue(sp.build())
+		director := hx.KVInt(cfg, "director", 0) == 1
 		backend := http.HandlerFunc(func(w http.ResponseWriter, r *http.Request) {
 			w.Header().Set("X-Served", esc(r.URL.String()))
+			if director {
+				// director style: the downstream handler completes the URL it was handed, in place
+				r.URL.Path += "/dir"
+				r.URL.RawPath = ""
+				r.URL.RawQuery = "d=1"
+				r.URL.Host = "rewritten." + r.URL.Host
+			}
 		})
 		eh := utils.ErrorHandlerFunc(func(w http.ResponseWriter, _ *http.Request, err error) {
 			w.Header().Set("X-Rejected", errKind(err))
